@@ -571,3 +571,112 @@ Proof.
     + pose proof (Hhdr (S i) x Hx) as Hx'. rewrite Hx'. cbn [s_e with_block length].
       destruct (Nat.eqb_spec (S i) (S (length r))); lia.
 Qed.
+
+(* =====================  HSMS (C04)  ===================== *)
+Definition hhdr_fields_ok (h : hhdr) : Prop :=
+  (0 <= h_session h < 65536)%Z /\ (0 <= h_stream h < 128)%Z /\ (0 <= h_function h < 256)%Z /\
+  (0 <= h_ptype h < 256)%Z /\ stype_known (h_stype h) = true /\ (0 <= h_system h < 4294967296)%Z.
+
+Definition to_e37 (h : hhdr) : e37hdr :=
+  {| e37_session := Z.to_N (h_session h); e37_w := h_w h; e37_stream := Z.to_N (h_stream h); e37_function := Z.to_N (h_function h);
+     e37_ptype := Z.to_N (h_ptype h); e37_stype := Z.to_N (h_stype h); e37_system := Z.to_N (h_system h) |}.
+
+Lemma stype_known_range v : stype_known v = true -> (0 <= v < 256)%Z.
+Proof.
+  destruct gen_hsms as (_ & _ & _ & _ & _ & _ & Hst). unfold stype_known. intro H.
+  apply existsb_exists in H as (p & Hin & Hp). apply (in_map snd) in Hin. rewrite Hst in Hin.
+  cbn in Hin. repeat (destruct Hin as [Hin|Hin]; [rewrite <- Hin in Hp; lia|]). destruct Hin.
+Qed.
+
+Theorem hhdr_encode_exact h : hhdr_fields_ok h -> hhdr_encode h = Ok (e37_header_bytes (to_e37 h)).
+Proof.
+  intros (Hs & Hst & Hf & Hp & Hty & Hy). destruct gen_hsms as (Fe & _). pose proof (stype_known_range _ Hty) as Hty'.
+  unfold hhdr_encode. rewrite Fe. cbn [pack_fields].
+  assert (Es : (if h_w h then Z.lor (h_stream h) 128 else h_stream h) = Z.of_N (Z.to_N (h_stream h) + (if h_w h then 2^7 else 0))).
+  { destruct (h_w h); [|lia]. rewrite <- (Z2N.id (h_stream h)) at 1 by lia. change 128%Z with (Z.of_N (2^7)).
+    rewrite zlor_flag; [reflexivity|]. change (2^7) with 128. lia. }
+  rewrite Es. rewrite pack_H by lia. cbn [bind].
+  rewrite pack_B by (change (2^7) with 128; destruct (h_w h); lia). cbn [bind].
+  rewrite !pack_B by lia. cbn [bind]. rewrite pack_L by lia. cbn [bind].
+  rewrite N2Z.id. unfold e37_header_bytes, to_e37.
+  cbn [e37_session e37_w e37_stream e37_function e37_ptype e37_stype e37_system]. rewrite !be_1, app_nil_r.
+  f_equal. f_equal. cbn [app]. f_equal; [|f_equal; [|f_equal]].
+  - unfold bit. change (2^7) with 128. destruct (h_w h); rewrite N.mod_small; lia.
+  - apply N.mod_small. lia.
+  - apply N.mod_small. lia.
+  - f_equal. apply N.mod_small. lia.
+Qed.
+
+Lemma hhdr_decode_10 b0 b1 b2 b3 b4 b5 b6 b7 b8 b9 :
+  hhdr_decode [b0;b1;b2;b3;b4;b5;b6;b7;b8;b9] =
+  if negb (stype_known (Z.of_N b5)) then Err EValue else
+  Ok {| h_system := Z.of_N (be_val [b6;b7;b8;b9] 0); h_session := Z.of_N (b0 * 256 + b1); h_stream := Z.of_N (b2 mod 128);
+        h_function := Z.of_N b3; h_w := flagb b2 128; h_ptype := Z.of_N b4; h_stype := Z.of_N b5 |}.
+Proof.
+  destruct gen_hsms as (_ & Fd & _). unfold hhdr_decode. rewrite Fd.
+  cbn [unpack_fields sc_bytes length Nat.ltb Nat.leb firstn skipn unpack_int sc_signed bind be_val].
+  rewrite !N.mul_0_l, !N.add_0_l. destruct (negb (stype_known (Z.of_N b5))); [reflexivity|].
+  change 127%Z with (Z.of_N (N.ones 7)). change 128%Z with (Z.of_N (2^7)). change 7%Z with (Z.of_N 7).
+  rewrite zland_low, zflag. reflexivity.
+Qed.
+
+Theorem hhdr_roundtrip h : hhdr_fields_ok h -> hhdr_decode (e37_header_bytes (to_e37 h)) = Ok h.
+Proof.
+  intros (Hs & Hst & Hf & Hp & Hty & Hy). pose proof (stype_known_range _ Hty) as Hty'.
+  unfold e37_header_bytes. cbn [app be]. rewrite hhdr_decode_10.
+  unfold to_e37. cbn [e37_session e37_w e37_stream e37_function e37_ptype e37_stype e37_system].
+  rewrite Z2N.id by lia. rewrite Hty. cbn [negb].
+  set (ss := Z.to_N (h_session h)). set (st := Z.to_N (h_stream h)). set (sy := Z.to_N (h_system h)).
+  assert (ss < 65536 /\ st < 128 /\ sy < 4294967296) as (Rs & Rt & Ry) by (unfold ss, st, sy; lia).
+  assert (Esys : be_val [sy / 256 / 256 / 256 mod 256; sy / 256 / 256 mod 256; sy / 256 mod 256; sy mod 256] 0 = sy).
+  { change [sy / 256 / 256 / 256 mod 256; sy / 256 / 256 mod 256; sy / 256 mod 256; sy mod 256] with (be 4 sy).
+    apply be_val_be0. exact Ry. }
+  rewrite Esys. destruct h as [sys ses str fn w pt sty]. cbn [h_system h_session h_stream h_function h_w h_ptype h_stype] in *.
+  f_equal. unfold flagb, bit. f_equal; try (unfold ss, st, sy; lia).
+  - destruct w; unfold st; lia.
+  - destruct w; [replace (((128 + st) / 128) mod 2) with 1 by lia|replace (((0 + st) / 128) mod 2) with 0 by lia]; reflexivity.
+Qed.
+
+Lemma e37_header_bytes_props h : length (e37_header_bytes h) = 10%nat.
+Proof. unfold e37_header_bytes. rewrite !app_length, !be_length. reflexivity. Qed.
+
+Lemma unpack_L4 a b c d : unpack_fields [SC_L] [a; b; c; d] = Ok [Z.of_N (be_val [a; b; c; d] 0)].
+Proof. cbn. reflexivity. Qed.
+
+Theorem hframe_encode_exact h data :
+  hhdr_fields_ok h -> (Z.of_nat (length data) + 10 < 4294967296)%Z ->
+  hframe_encode h data = Ok (e37_frame (to_e37 h) data).
+Proof.
+  intros Hok Hlen. destruct gen_hsms as (_ & _ & Fl & Fc & _ & Fh & _).
+  unfold hframe_encode. rewrite hhdr_encode_exact by exact Hok. cbn [bind]. rewrite Fl, Fc, Fh. cbn [pack_fields].
+  rewrite pack_L by lia. cbn [bind].
+  rewrite firstn_app, e37_header_bytes_props, Nat.sub_diag, firstn_O, app_nil_r.
+  rewrite firstn_all2 by (rewrite e37_header_bytes_props; lia).
+  unfold e37_frame. rewrite !app_nil_r. f_equal. f_equal. f_equal. lia.
+Qed.
+
+Theorem hframe_roundtrip h data :
+  hhdr_fields_ok h -> (Z.of_nat (length data) + 10 < 4294967296)%Z ->
+  hframe_decode (e37_frame (to_e37 h) data) = Ok (h, data).
+Proof.
+  intros Hok Hlen. destruct gen_hsms as (_ & _ & Fl & Fc & _ & Fh & _).
+  unfold hframe_decode, e37_frame. rewrite Fl, Fc, Fh. cbn [fmt_size fold_right sc_bytes Nat.add].
+  set (n := 10 + N.of_nat (length data)). set (hb := e37_header_bytes (to_e37 h)).
+  assert (Hl4 : length (be 4 n) = 4%nat) by apply be_length.
+  assert (Hhb : length hb = 10%nat) by apply e37_header_bytes_props.
+  assert (Hlt : (length (be 4 n ++ hb ++ data) <? 4)%nat = false) by (apply Nat.ltb_ge; rewrite app_length; lia).
+  rewrite Hlt. rewrite firstn_app, Hl4, Nat.sub_diag, firstn_O, app_nil_r, firstn_all2 by lia.
+  assert (Hbe : exists a b c d, be 4 n = [a; b; c; d]).
+  { destruct (be 4 n) as [|a [|b [|c [|d [|e l]]]]] eqn:E; try discriminate Hl4. eauto. }
+  destruct Hbe as (a & b & c & d & Ebe). rewrite Ebe at 1. rewrite unpack_L4. cbn [bind]. rewrite <- Ebe.
+  rewrite be_val_be0 by (unfold n; change (256 ^ N.of_nat 4) with 4294967296; lia).
+  assert (Hn : (Z.of_N n - Z.of_nat 10 = Z.of_nat (length data))%Z) by (unfold n; lia).
+  rewrite Hn. destruct (Z.ltb_spec (Z.of_nat (length data)) 0); [lia|].
+  rewrite !app_length, Hl4, Hhb.
+  match goal with |- (if negb ?c then _ else _) = _ => assert (c = true) as -> by lia end. cbn [negb].
+  rewrite Nat2Z.id. rewrite skipn_app, Hl4, Nat.sub_diag, skipn_O, skipn_all2 by lia. cbn [app].
+  rewrite firstn_app, Hhb, Nat.sub_diag, firstn_O, app_nil_r, firstn_all2 by lia.
+  unfold hb. rewrite hhdr_roundtrip by exact Hok. cbn [bind].
+  rewrite skipn_app, e37_header_bytes_props, Nat.sub_diag, skipn_O, skipn_all2 by (rewrite e37_header_bytes_props; lia).
+  cbn [app]. rewrite firstn_all. reflexivity.
+Qed.
